@@ -13,7 +13,7 @@ aligned types at each x86 level; both IRs are executed symbolically (bit-exact I
  * lowp approximations: the rounding-erased lowp result is within 2^-11 relative of the exact one under the Intel SDM contract.
 Builds whose LLVM IR for a wrapper is textually identical to an already checked build share that verdict (the executor sees only the IR)."""
 from props.common import *
-import hashlib, re, time, fnmatch
+import hashlib, re, time, fnmatch, json
 from fractions import Fraction
 from harness import _cone_of_influence, _mentions_fp
 LEVEL = 'translation_validation'
@@ -25,16 +25,16 @@ BOUNDS = ('all argument values in the documented domain (non-NaN for min/max/cla
           'operation table in evidence; every ISA level in both tiers (builds with textually identical IR for a wrapper share one verdict)')
 OUTSIDE = ('magnitude of the rounding difference of multi-term expressions (only rounding-erased equality and bit-precise equality of the discontinuous decisions are decided); lowp reciprocal/rsqrt accuracy is '
            'decided on rounding-erased terms under the Intel SDM contract (|rel. error| <= 1.5*2^-12, positive normal argument), not for the final rounding; AVX-512 / NEON; NaN payloads; '
-           'GLM_FORCE_QUAT_DATA_WXYZ x SIMD and the aligned_mediump / aligned_lowp instances of operations without a precision-specific specialisation are covered in the thorough tier only; '
+           'GLM_FORCE_QUAT_DATA_WXYZ x SIMD: quaternion operations at SSE2 and AVX2+FMA in quick, every level in thorough; the aligned_mediump / aligned_lowp instances of operations without a precision-specific specialisation are covered in the thorough tier only; '
            'kernels of glm/simd/*.h that no glm operation calls are compared with the operation they are named after as optional (non-mandatory) obligations')
 ASSUMPTIONS = ['x86 intrinsic semantics per Intel SDM as modelled in engine/models.py:x86', 'libm transcendentals are shared uninterpreted functions',
                'the LLVM IR of a wrapper determines its behaviour: two ISA builds with textually identical IR for a wrapper (attributes and metadata stripped) share one verdict']
 
 INC = ['glm/glm.hpp', 'glm/gtc/quaternion.hpp', 'glm/gtc/matrix_inverse.hpp']
 P = Unit('c03pure', includes=INC, defines=['GLM_FORCE_PURE', 'QQ=glm::packed_highp', 'QL=glm::packed_lowp', 'QM=glm::packed_mediump'])
-SPEC = {}      # fname -> dict(cls, pre, dec, tier, known, hint, opt)
-def add(name, ins, outs, body, cls='ident', pre=None, dec=False, tier='quick', hint=None, opt=False, weight=1.0):
-    P.add(name, ins, outs, body); SPEC[name] = dict(cls=cls, pre=pre, dec=dec, tier=tier, hint=hint, opt=opt, weight=weight)
+SPEC = {}      # fname -> dict(cls, pre, dec, tier, opt, weight)
+def add(name, ins, outs, body, cls='ident', pre=None, dec=False, tier='quick', opt=False, weight=1.0):
+    P.add(name, ins, outs, body); SPEC[name] = dict(cls=cls, pre=pre, dec=dec, tier=tier, opt=opt, weight=weight)
 
 def nonan(*arrs): return lambda i: [z3.Not(is_nan(x)) for k in arrs for x in i[k]]
 def fin(*arrs): return lambda i: [finite(x) for k in arrs for x in i[k]]
@@ -57,8 +57,7 @@ def vec_ops(L, Q, sfx, tier):
         if Q == 'QL' and f == 'inversesqrt': continue         # lowp inversesqrt is the bit-trick approximation in BOTH builds (same generic code); nothing SIMD specific
         add('%s%d_f%s' % (f, L, sfx), [('float', L)], [('float', L)], 'stv(o, glm::%s(%s(a)));' % (f, V), pre=fin(0) if f in ROUNDF else None, tier=tier, cls=c)
     for f in ('min', 'max', 'step', 'mod'):
-        add('%s%d_f%s' % (f, L, sfx), [('float', L), ('float', L)], [('float', L)], 'stv(o, glm::%s(%s(a), %s(b)));' % (f, V, V), pre=nonan(0, 1), cls='ident' if f != 'mod' else 'real', tier=tier,
-            hint=(lambda i: [x == f32(1.0) for x in i[1]]) if f == 'mod' else None, weight=3.0 if f == 'mod' else 1.0)
+        add('%s%d_f%s' % (f, L, sfx), [('float', L), ('float', L)], [('float', L)], 'stv(o, glm::%s(%s(a), %s(b)));' % (f, V, V), pre=nonan(0, 1), cls='ident' if f != 'mod' else 'real', tier=tier)
     add('clamp%d_f%s' % (L, sfx), [('float', L), ('float', L), ('float', L)], [('float', L)], 'stv(o, glm::clamp(%s(a), %s(b), %s(c)));' % (V, V, V), pre=nonan(0, 1, 2), tier=tier)
     add('mixb%d_f%s' % (L, sfx), [('float', L), ('float', L), ('bool', L)], [('float', L)], 'stv(o, glm::mix(%s(a), %s(b), ldv<%d,bool,%s>(c)));' % (V, V, L, Q), tier=tier)
     add('mix%d_f%s' % (L, sfx), [('float', L), ('float', L), ('float', L)], [('float', L)], 'stv(o, glm::mix(%s(a), %s(b), %s(c)));' % (V, V, V), cls='real', tier=tier)
@@ -127,8 +126,8 @@ def k1(name, kern, pure, n=1, **kw):
     kernel('k_' + name, [('float', 4)] * n, [('float', 4)], 'glm::vec<4,float,QQ> r; r.data = %s(%s); stv(o, r);' % (kern, ', '.join('%s(%s).data' % (LV, x) for x in args)),
            'stv(o, %s(%s));' % (pure, ', '.join('%s(%s)' % (LV, x) for x in args)), **kw)
 k1('sign', 'glm_vec4_sign', 'glm::sign')
-k1('roundEven', 'glm_vec4_roundEven', 'glm::roundEven', pre=fin(0))
-k1('clamp', 'glm_vec4_clamp', 'glm::clamp', 3, pre=lambda i: nonan(0, 1, 2)(i) + [z3.fpLEQ(fpof(x), fpof(y)) for x, y in zip(i[1], i[2])])
+k1('roundEven', 'glm_vec4_roundEven', 'glm::roundEven', pre=fin(0), opt=True)
+k1('clamp', 'glm_vec4_clamp', 'glm::clamp', 3, pre=lambda i: nonan(0, 1, 2)(i) + [z3.fpLEQ(fpof(x), fpof(y)) for x, y in zip(i[1], i[2])], opt=True)
 k1('mix', 'glm_vec4_mix', 'glm::mix', 3, cls='real')
 k1('step', 'glm_vec4_step', 'glm::step', 2, pre=nonan(0, 1), opt=True)
 k1('add', 'glm_vec4_add', 'glm::operator+', 2); k1('sub', 'glm_vec4_sub', 'glm::operator-', 2); k1('mul', 'glm_vec4_mul', 'glm::operator*', 2); k1('div', 'glm_vec4_div', 'glm::operator/', 2)
@@ -156,8 +155,20 @@ PW = P.clone('c03pure_wxyz', defines=P.defines + ['GLM_FORCE_QUAT_DATA_WXYZ'])
 SW = {k: mk_simd(k + '_wxyz', ISA[k], ['GLM_FORCE_QUAT_DATA_WXYZ'] + XDEF.get(k, [])) for k in ISA}
 for u_ in [PW] + list(SW.values()): u_.fns = {k: v for k, v in u_.fns.items() if k in QNAMES}
 NATIVE = False
+WXYZ_QUICK = ('sse2', 'avx2fma')
+def wxyz_isas(tier): return WXYZ_QUICK if tier == 'quick' else tuple(ISA)
+def prebuild_native(us):
+    """thorough: every unit is also built natively and each symbolic term is compared with native execution on sampled inputs (validates the x86 intrinsic models).  g++ rejects the AVX2 units
+    (compute_fma<4, double> calls _mm256_fmadd_pd without -mfma when the compiler is not clang - a glm build defect outside this property): those are built with clang++-14 instead."""
+    from concurrent.futures import ThreadPoolExecutor
+    def one(u):
+        try: u.native()
+        except RuntimeError:
+            try: u._lib[('g++', '-O2')] = u.native('clang++-14')
+            except RuntimeError: pass
+    with ThreadPoolExecutor(max_workers=12) as tp: list(tp.map(one, us))
 def units(tier):
-    return [P] + [S_[k] for k in ISA] + ([PW] + [SW[k] for k in SW] if tier != 'quick' else [])
+    return [P] + [S_[k] for k in ISA] + [PW] + [SW[k] for k in wxyz_isas(tier)]
 
 # ----------------------------------------------------------------------------- IR-level de-duplication of ISA builds
 _IRDEFS = {}
@@ -169,6 +180,7 @@ def ir_defs(unit):
             m = re.search(r'@([\w.$]+)\(', body)
             if m: d[m.group(1)] = body
         for m in re.finditer(r'^@([\w.$]+) = [^\n]*$', txt, re.M): d[m.group(1)] = m.group(0)
+        for m in re.finditer(r'^(%[\w.$]+|%"[^"]+") = type [^\n]*$', txt, re.M): d[m.group(1)] = m.group(0)          # named types: their layout is part of the meaning of the body
         _IRDEFS[unit.name] = d
     return _IRDEFS[unit.name]
 def _norm_ir(s):
@@ -178,7 +190,7 @@ def ir_key(unit, fname, _seen=None):
     name = fname if _seen is not None else 'w_' + fname
     if name in seen or name not in d: return ''
     seen.add(name); b = _norm_ir(d[name]); h = b
-    for r in sorted(set(re.findall(r'@([\w.$]+)', b))):
+    for r in sorted(set(re.findall(r'@([\w.$]+)', b)) | set(re.findall(r'%[\w.$]+|%"[^"]+"', b))):
         if r != name and r in d: h += ir_key(unit, r, seen)
     return hashlib.sha256(h.encode()).hexdigest()[:16] if _seen is None else h
 
@@ -233,7 +245,7 @@ class Cong:
     analysis: every zs operand is either non-zero (then it is the same value on both sides) or one of the four sign combinations of two zeros; the other operands become one fresh constant each."""
     ZP = {32: z3.FPVal(0.0, FSORT[32]), 64: z3.FPVal(0.0, FSORT[64])}
     def __init__(s, S, hyps, per_query=10.0, budget=60.0):
-        s.S = S; s.hyps = list(hyps); s.memo = {}; s.per = per_query; s.left = budget; s.lemmas = 0; s.time = 0.0; s.keep = []; s.cases = {}; s.idm = {}
+        s.S = S; s.hyps = list(hyps); s.memo = {}; s.per = per_query; s.left = budget; s.lemmas = 0; s.time = 0.0; s.keep = []; s.cases = {}; s.idm = {}; s.hv = {}
     def eq(s, x, y): return s.rel(x, y) == 'eq'
     def ids(s, t):
         k = t.get_id()
@@ -271,6 +283,16 @@ class Cong:
         sv = z3.Solver(); sv.set('timeout', int(to * 1000)); sv.add(*asserts); r = str(sv.check()); dt = time.time() - t0
         s.left -= dt; s.time += dt; s.lemmas += 1
         return r
+    HEAVY = (z3.Z3_OP_FPA_MUL, z3.Z3_OP_FPA_DIV, z3.Z3_OP_FPA_SQRT, z3.Z3_OP_FPA_FMA, z3.Z3_OP_FPA_REM, z3.Z3_OP_BMUL, z3.Z3_OP_BUDIV, z3.Z3_OP_BSDIV, z3.Z3_OP_BUREM, z3.Z3_OP_BSREM, z3.Z3_OP_BSMOD,
+             z3.Z3_OP_BUDIV_I, z3.Z3_OP_BSDIV_I, z3.Z3_OP_BUREM_I, z3.Z3_OP_BSREM_I, z3.Z3_OP_UNINTERPRETED, z3.Z3_OP_FPA_TO_FP, z3.Z3_OP_FPA_TO_SBV, z3.Z3_OP_FPA_TO_UBV, z3.Z3_OP_FPA_TO_FP_UNSIGNED)
+    def heavy(s, t):
+        """contains an operation that is expensive to bit-blast (only such common subterms are worth generalising; cheap ones keep their link to the inputs)"""
+        k = t.get_id()
+        if k not in s.hv:
+            dk = t.decl().kind() if z3.is_app(t) else None
+            own = t.num_args() > 0 and dk in s.HEAVY and not (dk == z3.Z3_OP_FPA_TO_FP and t.num_args() == 1)
+            s.hv[k] = own or any(s.heavy(c) for c in t.children())
+        return s.hv[k]
     def leaf(s, x, y):
         if x.sort() != y.sort(): return None
         sy = subterms(y); sub = []; st = [x]; seen = set()
@@ -278,15 +300,17 @@ class Cong:
             t = st.pop()
             if t.get_id() in seen: continue
             seen.add(t.get_id())
-            if t.num_args() > 0 and t.get_id() in sy and not z3.is_bool(t):
+            if t.num_args() > 0 and t.get_id() in sy and not z3.is_bool(t) and s.heavy(t):
                 sub.append((t, z3.FreshConst(t.sort(), 'sh'))); continue
             st.extend(t.children())
-        hy = s.hyps
-        if sub:
-            x = z3.substitute(x, *sub); y = z3.substitute(y, *sub); hy = [z3.substitute(h, *sub) for h in hy]
-        r = s.solve(x == y, hy)
-        if r == 'unsat': return 'eq'
-        if r == 'sat' and z3.is_fp(x) and s.solve(z3.Or(x == y, z3.And(z3.fpIsZero(x), z3.fpIsZero(y))), hy) == 'unsat': return 'zs'
+        for sb in ([sub] if sub else []) + [[]]:          # generalised first; a refuted generalisation is retried on the terms themselves
+            hy = s.hyps; x2, y2 = x, y
+            if sb:
+                x2 = z3.substitute(x, *sb); y2 = z3.substitute(y, *sb); hy = [z3.substitute(h, *sb) for h in hy]
+            r = s.solve(x2 == y2, hy)
+            if r == 'unsat': return 'eq'
+            if r == 'sat' and z3.is_fp(x) and s.solve(z3.Or(x2 == y2, z3.And(z3.fpIsZero(x2), z3.fpIsZero(y2))), hy) == 'unsat': return 'zs'
+            if r == 'unknown': break
         return None
     def node_cases(s, d, xc, yc, cs):
         """one-operator case analysis (hypothesis free; cached per operator and operand pattern)"""
@@ -442,6 +466,14 @@ def _dot3_assoc(res, i):
     return canon(z3.simplify(z3.fpLT(k(d1), FPV(0.0)))) != canon(z3.simplify(z3.fpLT(k(d2), FPV(0.0))))
 REGIONS = {'round_tie': _round_tie, 'sse2_round_region': _sse2_region, 'dot3_assoc': _dot3_assoc}
 
+_CPU = None
+def cpu_has(isa):
+    global _CPU
+    if _CPU is None:
+        try: _CPU = set(re.search(r'^flags\s*:(.*)$', open('/proc/cpuinfo').read(), re.M).group(1).split())
+        except Exception: _CPU = set()
+    need = {'sse2': ['sse2'], 'sse3': ['pni'], 'ssse3': ['ssse3'], 'sse41': ['sse4_1'], 'sse42': ['sse4_2'], 'avx': ['avx'], 'avx2': ['avx2'], 'avx2fma': ['avx2', 'fma']}[isa]
+    return all(f in _CPU for f in need)
 # ----------------------------------------------------------------------------- the differential check of one wrapper in one SIMD build
 def _native_differs(c, x, y, tol=None):
     if ct_kind(c) == 'b': x &= 1; y &= 1
@@ -511,6 +543,7 @@ class Pair:
         return replay
     def replay_vals(s, vals, oi, i, tol=None):
         info = {'unit': s.ua.name, 'unit_b': s.ub.name, 'fn': s.fn, 'inputs': [[hex(v) for v in r] for r in vals], 'obligation': s.nm, 'property': s.S.pid, 'pin_name': s.nm}
+        if not cpu_has(s.isas[0]): return 'not-replayable(cpu lacks %s)' % s.isas[0], info
         try: na = s.ua.call_native(s.fn, vals); nb = s.ub.call_native(s.fn, vals)
         except RuntimeError:      # g++ rejects a unit (e.g. _mm256_fmadd_pd without -mfma at -mavx2): replay with the compiler that produced the IR
             na = s.ua.call_native(s.fn, vals, cxx='clang++-14'); nb = s.ub.call_native(s.fn, vals, cxx='clang++-14'); info['native_compiler'] = 'clang++-14'
@@ -567,6 +600,13 @@ class Pair:
             if r == 'unknown' and pair is not None:
                 cg = Cong(S, hy, per_query=S.cap(10, 30), budget=timeout)
                 if cg.eq(*pair): return ok('z3 (structural congruence: %d lemma(s), common subterms generalised)' % cg.lemmas, cg.time)
+        if s.sp['opt']:       # kernel that no glm operation reaches: a difference is recorded (optional obligation), not reported as a violation of the property
+            r, m, dt, used = S.query(list(hy) + [z3.Not(goal)], min(timeout, 20), 'z3', s.allvars)
+            rec = S.rec(name=name, kind=kind, functions=s.fnlist, bounds=b2, solver=used, result=r, time_s=round(dt, 3), mandatory=False, status='discharged' if r == 'unsat' else ('kernel-differs' if r == 'sat' else 'inconclusive'))
+            if r == 'sat':
+                try: rec['replay'], rec['replay_info'] = rp(m)
+                except Exception as e: rec['replay'] = 'replay-error'
+            return r == 'unsat'
         r, m = S.prove(name, goal if final_goal is None else final_goal, hy, timeout=timeout, solver=solver, kind=kind, functions=s.fnlist, bounds=b2, replay=rp, vars_=s.allvars, mandatory=mandatory)
         return r == 'unsat'
 
@@ -577,6 +617,18 @@ def check_pair(S, ua, ub, fn, tag, isas):
         S.rec(name='c03.%s.%s' % (tag, fn), kind='encode', result='unsupported', status='not-encoded', note=str(e)[:300], mandatory=mand, functions=[fn])
         if mand: S.inconclusive.append('c03.%s.%s [not encoded: %s]' % (tag, fn, str(e)[:200]))
         return
+    if not S.quick and cpu_has(isas[0]):      # translator / intrinsic-model validation: the symbolic terms of both builds against native execution on sampled inputs
+        try:
+            hv = z3.And(*pr.hyps) if pr.hyps else None
+            for r_ in (pr.ra, pr.rb):
+                ncmp, bad = validate_translation(r_, S.rnd, 3, pre=hv); S.validated += ncmp
+                if bad: S.engine_errors.append('%s: symbolic term disagrees with native execution: %s' % (pr.nm, json.dumps(bad[0])))
+        except Exception as e:
+            S.rec(name=pr.nm + '.validate', kind='validate', result='error', status='skipped', note=str(e)[:300], mandatory=False)
+    if pr.ubB:      # the SIMD build must not divide by zero / convert out of range / trap where the pure build (and the documented domain) does not
+        conds = [c for k, c, d in pr.ubB]
+        S.prove(pr.nm + '.simd-no-ub', z3.Not(z3.Or(*conds)) if len(conds) > 1 else z3.Not(conds[0]), pr.hyps, timeout=S.cap(30, 90), solver='portfolio' if fn.startswith('idiv') else 'z3', kind='ub', functions=pr.fnlist,
+                bounds=pr.binfo + ' [no undefined behaviour in the SIMD build on the inputs on which the pure build has none: %s]' % ', '.join(sorted({d for k, c, d in pr.ubB}))[:200], replay=None, vars_=pr.allvars, mandatory=mand)
     rest = []
     for el in pr.elems:
         oi, i, c, on, a, b = el; x, y = pr.terms(c, a, b)
@@ -683,35 +735,46 @@ def check_lowp(S, pr, rest):
                 bounds=pr.binfo + ' [rounding-erased; rcpps/rsqrtps per SDM: relative error <= 1.5*2^-12 on positive arguments; claim: |simd - pure| <= 2^-11 |pure|; approximated arguments > 0]')
     S.rec(name=pr.nm + '.approx-only-lowp', kind='structure', functions=pr.fnlist, bounds=pr.binfo, solver='term DAG inspection', result='unsat', time_s=0.0, status='discharged', mandatory=True, note='approximation intrinsics occur in a lowp result only')
 
-def job(names, wxyz=False):
+def groups_of(fn, wxyz, tier):
+    """ISA builds of one wrapper grouped by identical IR: [(representative, [members], key)] in ISA order"""
+    ub_all = SW if wxyz else S_; isas = wxyz_isas(tier) if wxyz else tuple(ISA); g = {}
+    for isa in isas: g.setdefault(ir_key(ub_all[isa], fn), []).append(isa)
+    return [(v[0], v, k) for k, v in g.items()]
+def run_task(S, fn, wxyz, rep, group, key):
+    ua = PW if wxyz else P; ub_all = SW if wxyz else S_; sfx = '_wxyz' if wxyz else ''
+    n0 = len(S.records)
+    check_pair(S, ua, ub_all[rep], fn, rep + sfx, group)
+    ok = all(x.get('status') in ('discharged', 'known-finding', 'known-finding-absent', 'ok') for x in S.records[n0:])
+    for isa in group[1:]:
+        S.rec(name='c03.%s%s.%s.same-ir' % (isa, sfx, fn), kind='diff', functions=[fn], bounds='LLVM IR of w_%s at %s is textually identical (attributes/metadata stripped, sha256 %s) to the IR checked as %s' % (fn, ' '.join(ISA[isa]), key, rep + sfx),
+              solver='IR identity with a checked build', result='unsat' if ok else 'unknown', time_s=0.0, status='discharged' if ok else 'see-representative', mandatory=ok and not SPEC[fn]['opt'])
+def job(names, wxyz=False):        # all ISA groups of the named wrappers (development helper)
     def run(S):
-        ua = PW if wxyz else P; ub_all = SW if wxyz else S_
         for fn in names:
-            done = {}
-            for isa in ISA:
-                ub = ub_all[isa]; key = ir_key(ub, fn); tag = isa + ('_wxyz' if wxyz else '')
-                if key in done:
-                    rep, n0, n1 = done[key]
-                    ok = all(x.get('status') in ('discharged', 'known-finding', 'known-finding-absent', 'ok') for x in S.records[n0:n1])
-                    S.rec(name='c03.%s.%s.same-ir' % (tag, fn), kind='diff', functions=[fn], bounds='LLVM IR of w_%s at %s is textually identical (attributes/metadata stripped, sha256 %s) to the IR checked as %s' % (fn, ' '.join(ISA[isa]), key, rep),
-                          solver='IR identity with a checked build', result='unsat' if ok else 'unknown', time_s=0.0, status='discharged' if ok else 'see-representative', mandatory=ok and not SPEC[fn]['opt'])
-                    continue
-                n0 = len(S.records)
-                group = [j for j in ISA if ir_key(ub_all[j], fn) == key]
-                check_pair(S, ua, ub, fn, tag, group)
-                done[key] = (tag, n0, len(S.records))
+            for rep, group, key in groups_of(fn, wxyz, S.tier): run_task(S, fn, wxyz, rep, group, key)
+    return run
+def job_tasks(tasks):
+    def run(S):
+        for t in tasks: run_task(S, *t)
     return run
 
 def table(tier):
     return [f for f in P.fns if tier != 'quick' or SPEC[f]['tier'] == 'quick']
+WEIGHT = {'face3_f': 2.5, 'refr3_f': 1.5, 'mod4_f': 3, 'fract4_f': 3, 'floor4_f': 2.5, 'ceil4_f': 2.5, 'k_roundEven': 2, 'face4_f': 1, 'round4_f': 1.5, 'minv4': 1, 'mops4': 1, 'mmul4': 1}
 def jobs(tier):
-    names = table(tier); nb = 28 if tier == 'quick' else 40
-    order = sorted(names, key=lambda f: -SPEC[f]['weight']); bins = [[0.0, []] for _ in range(nb)]
-    for f in order:
-        b = min(bins, key=lambda b_: b_[0]); b[0] += SPEC[f]['weight']; b[1].append(f)
-    J = [('g%02d.%s' % (gi, '+'.join(b[1])[:60]), job(b[1])) for gi, b in enumerate(bins) if b[1]]
-    if tier != 'quick':
-        for gi, g in enumerate([QNAMES[i::4] for i in range(4)]): J.append(('wxyz%d.%s' % (gi, '+'.join(g)[:60]), job(g, True)))
-    return J
+    """one task = one wrapper x one group of ISA builds with identical IR; tasks are packed into jobs of similar estimated cost"""
+    if tier != 'quick': prebuild_native(units(tier))
+    tasks = []
+    for fn in table(tier):
+        for wx in ((False, True) if fn in QNAMES else (False,)):
+            for rep, group, key in groups_of(fn, wx, tier):
+                w = WEIGHT.get(re.sub(r'_(lp|mp)$', '', fn), 0.3)
+                if rep != 'sse2' and fn.startswith(('mod4', 'fract4', 'floor4', 'ceil4', 'round4')): w = 0.3
+                tasks.append((w, (fn, wx, rep, group, key)))
+    nb = 28 if tier == 'quick' else 42
+    bins = [[0.0, []] for _ in range(nb)]
+    for w, t in sorted(tasks, key=lambda x: -x[0]):
+        b = min(bins, key=lambda b_: b_[0]); b[0] += w; b[1].append(t)
+    return [('g%02d.%s' % (gi, '+'.join(sorted({t[0] for t in b[1]}))[:70]), job_tasks(b[1])) for gi, b in enumerate(bins) if b[1]]
 JOB_CAP = {'quick': 600, 'thorough': 3600}
 def PROGRAMS(recs): return len({tuple(x['name'].split('.')[1:3]) for x in recs if x.get('kind') in ('diff', 'decision', 'lowp-accuracy')})
